@@ -39,6 +39,10 @@ fn main() {
         util::SHRINK_BUDGET.store(30, std::sync::atomic::Ordering::Relaxed);
         gen::SMALL.store(true, std::sync::atomic::Ordering::Relaxed);
     }
+    if s.args.extra_u64("depth-probe") == Some(1) {
+        // 1000-deep witnesses: shrinking clones them thousands of times
+        util::SHRINK_BUDGET.store(40, std::sync::atomic::Ordering::Relaxed);
+    }
     if cfg!(miri) {
         // No witness shrinking under the interpreter (seconds per parse): signatures of an
         // interpreted run may therefore name several features of an unshrunk witness.
